@@ -170,7 +170,7 @@ impl Val {
     pub fn short(&self) -> String {
         let s = format!("{:?}", self);
         if s.len() > 300 {
-            format!("{}…", &s[..300])
+            format!("{}…", s.chars().take(300).collect::<String>())
         } else {
             s
         }
